@@ -350,6 +350,41 @@ def rsum(name, n, f, lo=0, sort="int"):
     return fn(n)
 
 
+_PP = [z3.Int("pp!bound%d" % k) for k in range(4)]
+
+
+def rsump(name, n, f, params, lo=0, sort="int"):
+    """parametric version: sum_{q=lo}^{n-1} f(q, *params) as an uninterpreted function of (n, params).  The unfolding is instantiated at
+    the (n, params) it is applied to, so it is meant for *ground* parameters (loop variables, ghost constants), not for variables
+    bound by an enclosing quantifier (the instance would be about an unrelated constant: sound but useless)."""
+    params = [z3.simplify(smt.integer(p)) for p in params]
+    n = z3.simplify(smt.integer(n))
+    lo_t = smt.integer(lo)
+    body = f(_QQ, *_PP[:len(params)])
+    body = smt.real(body) if sort == "real" else smt.integer(body)
+    key = (name, sort, lo_t.sexpr(), body.sexpr(), len(params))
+    if key not in SINK.fns:
+        SINK.fns[key] = z3.Function("%s!%d" % (name, len(SINK.fns)), *([smt.I] * (1 + len(params)) + [smt.R if sort == "real" else smt.I]))
+    fn = SINK.fns[key]
+    inst = (key, n.sexpr(), tuple(p.sexpr() for p in params))
+    if inst not in SINK.seen:
+        SINK.seen.add(inst)
+        zero = z3.RealVal(0) if sort == "real" else z3.IntVal(0)
+        SINK.facts.append(z3.Implies(n <= lo_t, fn(n, *params) == zero))
+        nm1 = z3.simplify(n - 1)
+        step = f(nm1, *params)
+        step = smt.real(step) if sort == "real" else smt.integer(step)
+        SINK.facts.append(z3.Implies(n > lo_t, fn(n, *params) == fn(nm1, *params) + step))
+    return fn(n, *params)
+
+
+def _crsump(name, n, f, params, lo=0, sort="int"):
+    t = 0
+    for q in range(lo, n):
+        t = t + _fr(f(q, *params))
+    return t
+
+
 def count(name, n, pred, lo=0):
     return rsum(name, n, lambda q: z3.If(smt.boolean(pred(q)), z3.IntVal(1), z3.IntVal(0)), lo, "int")
 
@@ -391,6 +426,8 @@ def opaque(name, fn, sort="real"):
 
 
 BASE_NS["rsum"] = rsum
+BASE_NS["rsump"] = rsump
+CONC_NS["rsump"] = _crsump
 BASE_NS["reveal"] = lambda *a: z3.BoolVal(True)
 
 
